@@ -325,6 +325,23 @@ ROUND6 = {'C02': ' Identifiers of up to 2000 characters make the quoted error me
 for _pid, _t in ROUND6.items():
     CHECKS[_pid]['text'] += _t
 
+ROUND7 = {'C01': ' Fields that take only one subclass or one tag (older payloads, protection storage masks, compromise date) have candidates now: no field of any payload is left unpopulated.',
+          'C03': ' The policy directory monitor itself (file histories over three files) supplies the definitions in force for a class of access probes.',
+          'C04': ' The same use before and after a Revoke inside one batch, with the State the server reports in between.',
+          'C05': ' The newest object is destroyed before the next one is stored.',
+          'C07': ' Objects created, destroyed and referred to again inside one batch.',
+          'C08': ' Text outside ASCII (by byte substitution; the library cannot encode it) in identifiers and names of batch items.',
+          'C11': ' The identity behind a connection changes between two of its requests (directory service stub).',
+          'C12': ' Text outside ASCII in the valid frames of the streams.',
+          'C13': ' Text outside ASCII in generated requests.',
+          'C14': ' Locates carry a Storage Status Mask (online / online+archival).',
+          'C16': ' DiscoverVersions asked about arbitrary (major, minor) pairs.',
+          'C18': ' Documents whose sections are present but empty.',
+          'C19': " Register: the object's fields on the wire (split keys, big integers at the 64-bit edges).",
+          'C20': ' Secret-carrying items with inflated lengths and frames cut inside them, through the session.'}
+for _pid, _t in ROUND7.items():
+    CHECKS[_pid]['text'] += _t
+
 def build():
     with open(os.path.join(ROOT, 'properties.jsonl')) as f:
         pids = [json.loads(l)['id'] for l in f if l.strip()]
